@@ -469,6 +469,18 @@ def validate_trace(run, sc, records, label):
     return failing
 
 
+MAX_LISTED = 300
+
+
+def report(run, key, what, replay):
+    """run.violation, but after MAX_LISTED distinct violations the rest is only counted (a badly broken
+    implementation fails hundreds of thousands of cases; listing them all is useless and quadratic)."""
+    if len(run.violations) >= MAX_LISTED and key not in run.known:
+        run.coverage["violations_beyond_the_listed_ones"] = run.coverage.get("violations_beyond_the_listed_ones", 0) + 1
+        return
+    run.violation(key, what, replay)
+
+
 def main() -> int:
     tier = sys.argv[1] if len(sys.argv) > 1 else "quick"
     if tier == "--replay":
@@ -484,14 +496,14 @@ def main() -> int:
         # generic symbols
         tables, sym_problems, sym_outside = symbolic_tables()
         for clause, what in sym_problems:
-            run.violation(clause, what, {"kind": "symbolic", "clause": clause})
+            report(run, clause, what, {"kind": "symbolic", "clause": clause})
         for o in sym_outside:
             run.outside(o)
         run.coverage["symbolic_length_combinations"] = len(tables)
         sym_evals = 0
         for case in pairs:
             for clause, what in symbolic_on_grid(tables, case):
-                run.violation(_key(case, clause), what, {"kind": "pair", "model": case})
+                report(run, _key(case, clause), what, {"kind": "pair", "model": case})
             sym_evals += 1
         run.coverage["symbolic_results_evaluated_on_grid_pairs"] = sym_evals
 
@@ -509,7 +521,7 @@ def main() -> int:
                 for o in outside:
                     run.outside(o)
                 for clause, what in problems:
-                    run.violation(_key(case, clause), what, {"kind": "pair" if case["n"] == 2 else "triple", "model": case})
+                    report(run, _key(case, clause), what, {"kind": "pair" if case["n"] == 2 else "triple", "model": case})
                 if record is not None:
                     record["id"] = len(records)
                     records.append((record, case))
@@ -518,10 +530,11 @@ def main() -> int:
 
         failing = validate_trace(run, sc, [r for r, _ in records], "real")
         run.traces += len(records)
+        run.coverage["records_rejected_by_trace_spec"] = len(failing)
         for rid, clauses in sorted(failing.items()):
             rec, case = records[rid]
             for clause in clauses:
-                run.violation(_key(case, f"recorded {clause}"),
+                report(run, _key(case, f"recorded {clause}"),
                               f"TLC rejects clause {clause} on the recorded real results {json.dumps(rec)[:300]}",
                               {"kind": "pair" if case["n"] == 2 else "triple", "model": case, "record": rec, "clause": clause})
         selftest(run, sc, records)
